@@ -13,6 +13,7 @@ CONSTANT Lenient = TRUE
 CONSTANT Snonce = "reuse"
 CONSTANT ApKnownFirst = TRUE
 CONSTANT Record = TRUE
+CONSTANT MinLen = 1
 CONSTANT MaxLen = 12
 CONSTRAINT Emit
 CHECK_DEADLOCK FALSE
